@@ -189,7 +189,10 @@ def run(tier, exe=None, info=None):
                              (v["name"], d["c"], v["soft"], v["calls"], v["soft_first_case"], v["soft_desc"]),
                              {"k": k["ptr"], "v": v["name"], "case": v["soft_first_case"], "tier": tier})
             if v["mismatches"]:
-                ck.violation("C07:mismatch@%s_%s" % (k["ptr"], v["isa"]),
+                # the key fingerprints the set of failing inputs (first failing case of the tier's enumeration and, when the kernel's
+                # enumeration ran to the end, how many fail): further failing inputs of a kernel with a known finding are a new violation
+                fp = "first=%d" % v["first_case"] + ("" if d.get("timed_out") else ",n=%d" % v["mismatches"])
+                ck.violation("C07:mismatch@%s_%s#%s:%s" % (k["ptr"], v["isa"], tier, fp),
                              "%s differs from %s in %d of %d compared calls; first (case %d): %s" %
                              (v["name"], d["c"], v["mismatches"], v["calls"], v["first_case"], v["desc"]),
                              {"k": k["ptr"], "v": v["name"], "case": v["first_case"], "tier": tier})
